@@ -469,6 +469,12 @@ class Rinex2Parser(ChainParser):
         # Reject empty lines
         line["year"] = line["year"].strip()
         if (not line["year"].isnumeric()) and (not line["sat_list"]):
+
+            # An all-blank line is an observation record with only missing (blank) observations, as long as
+            # observation records are still expected for satellites of the current epoch. The line label cannot
+            # recognize it, because trailing blanks are removed before the line is labeled.
+            if cache.get("sat_list") and not any(v.strip() for v in line.values()):
+                self._parse_observation({f"obs_{idx}": "" for idx in range(1, 6)}, cache)
             return
 
         # Reject comment lines
